@@ -45,6 +45,8 @@ Definition entries : list (string * (sexp -> option sexp)) := [
   ("C06.wellformed", Universe.run_wellformed);
   ("C06.lookups", Universe.run_lookups);
   ("C06.prelookups", Universe.run_prelookups);
+  ("C01.prelookups", Universe.run_prelookups);
+  ("C11.prelookups", Universe.run_prelookups);
   ("C20.preds", Universe.run_preds);
   ("C11.universe", Universe.run_universe);
   ("C05.comments", Comments.run_comments);
